@@ -485,6 +485,28 @@ fn json_trip<T: Serialize + DeserializeOwned>(
                     show(&back)
                 ));
             }
+            // the same JSON through the other deserialization paths (owned strings instead of borrowed slices):
+            // a generic JSON value, and a byte reader
+            let r2 = guarded(|| {
+                let via_value = serde_json::to_value(v).and_then(serde_json::from_value::<T>);
+                let via_reader = serde_json::from_reader::<_, T>(s.as_bytes());
+                (via_value, via_reader)
+            });
+            match r2 {
+                Err(p) => t.fail(format!("C17 {ty}: panic in the value / reader path for {}: {p}", show(v))),
+                Ok((a, b)) => {
+                    match a {
+                        Ok(x) if eq(v, &x) => {}
+                        Ok(x) => t.fail(format!("C17 {ty}: from_value(to_value(v)) != v: {} vs {}", show(v), show(&x))),
+                        Err(e) => t.fail(format!("C17 {ty}: from_value(to_value(v)) fails: {e}; json `{s}`")),
+                    }
+                    match b {
+                        Ok(x) if eq(v, &x) => {}
+                        Ok(x) => t.fail(format!("C17 {ty}: from_reader(to_json(v)) != v: {} vs {}", show(v), show(&x))),
+                        Err(e) => t.fail(format!("C17 {ty}: from_reader(to_json(v)) fails: {e}; json `{s}`")),
+                    }
+                }
+            }
         }
     }
 }
@@ -680,6 +702,27 @@ pub fn run_c17(tier: &str) -> i32 {
             }
         }
     }
+    // hand-built / merged snapshots: any order sequence, not only the timestamp-sorted one a live level lists
+    let mut unsorted: Vec<PriceLevelSnapshot> = vec![];
+    for l in lists.iter().filter(|l| l.len() >= 2) {
+        for rot in 1..l.len() {
+            let mut o: Vec<Ord_> = l.clone();
+            o.rotate_left(rot);
+            let mut s = PriceLevelSnapshot::new(LEVEL_PRICE);
+            s.orders = o.iter().map(|x| Arc::new(*x)).collect();
+            s.refresh_aggregates();
+            unsorted.push(s.clone());
+            o.reverse();
+            s.orders = o.iter().map(|x| Arc::new(*x)).collect();
+            unsorted.push(s);
+        }
+    }
+    for s in &unsorted {
+        if let Ok(p) = PriceLevelSnapshotPackage::new(s.clone()) {
+            packages.push(p);
+        }
+    }
+    ty!("PriceLevelSnapshot(any order sequence)", unsorted, |a: &PriceLevelSnapshot, b: &PriceLevelSnapshot| snap_key(a) == snap_key(b), |s: &PriceLevelSnapshot| format!("{s:?}"));
     ty!("PriceLevelSnapshot(synthetic aggregates)", synth, |a: &PriceLevelSnapshot, b: &PriceLevelSnapshot| snap_key(a) == snap_key(b), |s: &PriceLevelSnapshot| format!("{s:?}"));
     // packages: equal and still valid after the trip, through serde and through to_json / from_json
     {
